@@ -74,6 +74,7 @@ func runC10(c *Ctx) {
 	R.Rule("fan-out", "each publisher: whole subscriber list (inner loop), whole event slice (outer loop), one send/launch of that event to that subscriber per iteration", 6)
 	R.Rule("close-pairing", "Unsub closes exactly the channel it splices out; UnsubAll closes all and clears; no other close", 3)
 	R.Rule("timeout-dichotomy", "OnPubTimeout is called exactly when SendTimeout returned false and the hook is set, once, with the event", 1)
+	R.Rule("send-reports", "SendTimeout (the helper every publish variant sends through) returns true exactly on the paths that performed the one send", 1)
 	R.Rule("error-table", "Unsub: nil -> ErrSubscriptionNotInitalized, not found -> ErrAlreadyUnsubscribed, found -> nil; state untouched on the error rows", 1)
 	R.Rule("withonly-filter", "WithOnly's clone receives exactly the subscribers equal to the argument and the two configuration fields", 1)
 	R.Rule("sub-appends", "Sub/SubBuf append one fresh channel of the stated capacity under Lock and return that channel", 2)
@@ -873,8 +874,33 @@ func (x *c10) closePairing() {
 			if !good {
 				ok, why = false, "the list is not spliced as subs[:i] + subs[i+1:] with the index found: "+v.String()
 			}
-			mode, _, _ := x.rwHeldAt(p, len(p.Events)-1)
-			_ = mode
+			// the search, the close and the splice are one write-locked region: an index found in an earlier
+			// region is stale by the time it is used (another Unsub may have shifted the list in between)
+			region := func(e *Event) (string, int) {
+				for i := range p.Events {
+					if &p.Events[i] == e {
+						m, _, li := x.rwHeldAt(p, i)
+						return m, li
+					}
+				}
+				return "", -2
+			}
+			var search *Event
+			for i := range p.Events {
+				if e := &p.Events[i]; e.Kind == "call" && e.Res != nil && e.Res.Key() == idx.Key() {
+					search = e
+				}
+			}
+			if search == nil {
+				ok, why = false, "cannot locate the search for the argument"
+			} else {
+				ms, ls := region(search)
+				mc, lc := region(closes[0])
+				mw, lw := region(stores[0])
+				if ms != "W" || mc != "W" || mw != "W" || ls != lc || lc != lw {
+					ok, why = false, fmt.Sprintf("the index is searched (%s-region #%d), the channel closed (%s-region #%d) and the list spliced (%s-region #%d) in different lock regions: the index is stale when used", ms, ls, mc, lc, mw, lw)
+				}
+			}
 		}
 		if ok && !sawFound {
 			ok, why = false, "no found path"
@@ -996,6 +1022,7 @@ func (x *c10) timeoutDichotomy() {
 
 func (x *c10) errorTable() {
 	c := x.c
+	c19Senders(c, "send-reports", true)
 	fi := c.fn("error-table", "chans.(*PubSub).Unsub")
 	if fi == nil {
 		return
@@ -1098,6 +1125,22 @@ func (x *c10) withOnly() {
 					}
 				default:
 					ok, why = false, "subscribers are not compared with the argument"
+				}
+			}
+			// the clone's list is its own storage: Unsub splices the parent's array in place
+			for _, p := range ps {
+				for i := range p.Events {
+					e := &p.Events[i]
+					if e.Kind != "store" || !isFieldAddr(e.Addr, x.fSubs, nil) || rootOf(e.Addr).Op != "alloc" {
+						continue
+					}
+					b := e.Val
+					for b != nil && (b.Op == "slice" || (b.Op == "builtin" && b.Sym == "append")) {
+						b = b.Args[0]
+					}
+					if b != nil && x.isSubsLoad(b, recv) {
+						ok, why = false, "the clone's list is a (sub-)slice of the parent's backing array ("+e.Val.String()+"): a later Unsub on the parent shifts other subscribers into it"
+					}
 				}
 			}
 			for _, p := range it.li.Exit {
